@@ -25,6 +25,42 @@ CLAIMS = {
  "C18": ("model_checking", "P_C18_Accepted / P_C18_Partition model-checked over a look-ahead-heavy menu (tag/comment/blank runs before "
          "Examples/Scenario/Rule); delivered tokens of every trace compared one by one (line, type, fields) with the specification's.",
          "TLC model checking + spec->code replay + code->spec trace validation"),
+
+ "C02": ("model_checking", "Parser table DERIVED in TLA+ from gherkin.berp (transcription checked against the file) with structural ASSUMEs (determinism, stack discipline); "
+         "functional bisimulation of the derived table with parser.py and the Java/Go/Ruby/C/TypeScript generated parsers (order, hints, productions, expected lists); "
+         "MC_Language decides accept/first-fault equivalence of table and grammar NFA exactly (finite product, all lengths); every (position, kind, look-ahead oracle) driven "
+         "through the real Parser.match_token; all kind sequences <= N through the real Parser.parse; derivation predicate on the builder events of real documents.",
+         "TLC model checking + static bisimulation of 6 generated programs + behaviour replay + trace validation"),
+ "C05": ("model_checking", "Complete: MC_Keywords checks completeness/soundness/keyword types for every listed keyword of every dialect matched in every dialect (139,920 cases) "
+         "on the spec's matcher with the master table; every keyword instance as a real document (default dialect and via header) validated against the spec incl. the printed "
+         "token listing; header spellings from the pattern; foreign keywords; shipped table byte-identical to the master table.",
+         "TLC model checking (complete enumeration) + code->spec trace validation"),
+ "C06": ("model_checking", "MC_Grow enumerates every ACCEPTED document over a structural menu up to N lines and after deep prefixes; P_C06 (declarative Units(doc) vs "
+         "operational compiler) checked on the spec; every document replayed through the real parser+compiler and compared pickle by pickle; corpus/generated traces.",
+         "TLC model checking + spec->code replay + trace validation"),
+ "C07": ("model_checking", "As C06 with P_C07 (feature background, rule background, own steps; none for step-less scenarios; arguments carried); deep prefix with two rules "
+         "each having a background exposes leakage between rules.", "TLC model checking + spec->code replay + trace validation"),
+ "C08": ("model_checking", "As C06 with P_C08 (feature, rule, scenario, examples tags in order, duplicates kept, tag ids); menu line with a repeated tag; prefix with tags at "
+         "all four levels.", "TLC model checking + spec->code replay + trace validation"),
+ "C09": ("model_checking", "MC_Interpolate: operational substitution = declarative one, unchanged-without-placeholder, literal insertion, sequential columns over all templates "
+         "<= L x adversarial header/value pairs; every triple replayed through Compiler.compile on AST dictionaries (name, step text, cell, doc string content, media type; "
+         "background untouched), a sample as real text through the parser.", "TLC model checking + spec->code replay + trace validation"),
+ "C10": ("model_checking", "MC_Types: all keyword-type sequences (background 0..2 x scenario 0..4/5 steps), plain and outline: definite, from keyword, inherited across the "
+         "boundary, plain = outline; replayed on AST dictionaries and text; every listed step keyword of every dialect for the keyword->type map.",
+         "TLC model checking (complete up to the length bound) + replay + trace validation"),
+ "C11": ("model_checking", "P_C11_Canonical (ids = nid0.. in canonical post-order incl. pickles) and P_C11_Refs on every accepted document over the structural menu; MC_Stream: "
+         "uniqueness across documents of one stream incl. rejected ones, monotone counter (action property), density; recorded streams and traces.",
+         "TLC model checking + spec->code replay + trace validation"),
+ "C12": ("model_checking", "MC_Cells: the splitter as a character-level machine = recursive operational definition = declarative definition, round trip, read-back, on every "
+         "row over the 5 character classes up to the length bound (two instantiations of the classes); every row replayed on GherkinLine.table_cells and inside data / "
+         "examples tables; ragged tables over a table menu; traces.", "TLC model checking + spec->code replay + trace validation"),
+ "C13": ("model_checking", "P_C13_DocStrings (content rule, media type, opacity, closing by own delimiter) on every doc string body <= N lines drawn from every kind of "
+         "Gherkin-looking line, in scenario/background/outline steps (MC_Grow), unclosed/rejected ones via MC_Menu; replay and traces.",
+         "TLC model checking + spec->code replay + trace validation"),
+ "C17": ("model_checking", "Stream.tla/Messages.tla: MC_Stream checks order/options/uri/rejected-only-errors on every sequence of pool sources x 8 option sets and replays "
+         "each through GherkinEvents.enum; recorded streams (corpus, generated, noisy) validated by Trace_Stream with every raw envelope reduced to a shape that must fit the "
+         "transcribed Cucumber Messages schema (itself validated on the corpus reference ndjson); CLI JSON round trip.",
+         "TLC model checking + spec->code replay + trace validation of recorded streams"),
 }
 
 checks = []
